@@ -167,6 +167,9 @@ Definition set_headers (h : payload) (c : call) : call :=
 Definition set_trailers (h : payload) (c : call) : call :=
   mkCall (cs_req c) (cs_headers c) (cs_queue c) (cs_eof c) (Some h) (cs_wu c) (cs_hr c) true
          (cs_wrapper c) (cs_error c) (cs_in_tasks c) (cs_cancels c).
+Definition set_tr (b : bool) (c : call) : call :=
+  mkCall (cs_req c) (cs_headers c) (cs_queue c) (cs_eof c) (cs_trailers c) (cs_wu c) (cs_hr c) b
+         (cs_wrapper c) (cs_error c) (cs_in_tasks c) (cs_cancels c).
 Definition set_queue (q : list qitem) (eof : bool) (c : call) : call :=
   mkCall (cs_req c) (cs_headers c) q eof (cs_trailers c) (cs_wu c) (cs_hr c) (cs_tr c)
          (cs_wrapper c) (cs_error c) (cs_in_tasks c) (cs_cancels c).
@@ -206,7 +209,9 @@ Definition ack_out (i : sid) (n : Z) : list out := if n =? 0 then [] else [OAck 
 Record cres := mkCres {
   r_call : option call;    (* the component afterwards (None = not in the registry) *)
   r_out : list out;
-  r_raise : bool;          (* an exception leaves process(): the rest of the read is dropped *)
+  r_raise : bool;          (* an exception leaves process(): the rest of the read is dropped.  No branch of
+                              the code as it is now does that (see Proofs: never_raises); the field and
+                              run_batch stay so that the claim is a theorem and not a modelling choice *)
   r_slot : bool            (* stream_close_waiter.set() *)
 }.
 Definition same (oc : option call) : cres := mkCres oc [] false false.
@@ -239,7 +244,8 @@ Definition call_step (cn : conn) (i : sid) (oc : option call) (e : event) : cres
       match oc with Some c => same (Some (set_trailers hs c)) | None => same None end
   | EEnded _ =>
       match oc with
-      | Some c => same (Some (set_queue (cs_queue c ++ [QEof]) true c))
+      | Some c => (* Stream.__ended__: buffer.eof(); trailers_received.set() -- no trailers will follow *)
+          same (Some (set_tr true (set_queue (cs_queue c ++ [QEof]) true c)))
       | None => same None
       end
   | EReset _ remote code =>
@@ -248,9 +254,9 @@ Definition call_step (cn : conn) (i : sid) (oc : option call) (e : event) : cres
           let c1 := terminated (c_side cn) (if remote then RRemoteReset code else RProtocolError) c in
           match c_side cn with
           | Client => same (Some c1)                                    (* Handler.cancel: pass *)
-          | Server =>                                                    (* self._tasks.pop(stream).cancel() *)
+          | Server =>                   (* task = self._tasks.pop(stream, None); if task is not None: task.cancel() *)
               if cs_in_tasks c1 then same (Some (set_task false (S (cs_cancels c1)) c1))
-              else mkCres (Some c1) [] true false                        (* KeyError *)
+              else same (Some c1)
           end
       | None => same None
       end
@@ -306,6 +312,8 @@ Definition conn_step (cn : conn) (e : event) : conn :=
       mkConn (c_side cn) true (c_write_ready cn) (c_slot_wake cn)
   | EPause => mkConn (c_side cn) (c_closed cn) false (c_slot_wake cn)
   | EResume => mkConn (c_side cn) (c_closed cn) true (c_slot_wake cn)
+      (* Connection.resume_writing also flushes what h2 queued while paused (unless closing): bytes of
+         frames already accounted for by the steps that produced them, no state of this model *)
   | _ => cn
   end.
 
